@@ -155,6 +155,21 @@ def build(ex):
         options={'dumps_raises': ['AnyException'], 'send_errors': ['BrokenPipeError', 'ConnectionResetError', 'OSError']},
         modifies=['abs:Socket.sent'])
 
+    # L1i: the same function under ONE asynchronous exception (a graceful terminate: WorkerTerminatedError raised in the sending thread) at every statement
+    # boundary: a message is handed to the kernel by ONE call, so whatever the landing point the wire holds whole frames only - nothing of this message, or all
+    # of it.  A terminate landing between two partial writes would leave a stump that the peer takes for the start of the next message (C06: the stream of a
+    # terminated persistent remote worker must still end properly).
+    from pyvc.contracts import InjectCfg
+    send_i = Contract(
+        'pyworkers.remote.send_msg', name='C10.L1i send_msg is atomic with respect to a terminate landing inside it: the wire holds nothing of the message or all of it', lid='L1i',
+        params={'sock': ('abs', 'Socket'), 'msg': 'any', 'comment': 'none'},
+        all_exits=['sock.sent == old(sock.sent) or sock.sent == old(sock.sent) + frame(msg)'],
+        raises={'ConnectionClosedError': None, 'struct.error': None, 'AnyException': None, 'WorkerTerminatedError': None},
+        raises_only=['ConnectionClosedError', 'struct.error', 'AnyException', 'WorkerTerminatedError'],
+        options={'dumps_raises': ['AnyException'], 'send_errors': ['BrokenPipeError', 'ConnectionResetError', 'OSError']},
+        inject=InjectCfg(['pyworkers.remote.send_msg'], budget=1, kinds=('wte',), split_store=True),
+        modifies=['abs:Socket.sent'])
+
     # loop contract of the body-reading loop (ordinal 0 in recv_msg or in the helper it uses)
     recv_loops_complete = {0: Loop(
         invariant=['data_len >= 0',
@@ -252,8 +267,8 @@ def build(ex):
         ex.use_contract.add(HELPER)
         recv_ok.loops = {}
         recv_trunc.loops = {}
-        return [(send, None), (helper, None), (recv_ok, None), (recv_trunc, None)]
-    return [(send, None), (recv_ok, None), (recv_trunc, None)]
+        return [(send, None), (send_i, None), (helper, None), (recv_ok, None), (recv_trunc, None)]
+    return [(send, None), (send_i, None), (recv_ok, None), (recv_trunc, None)]
 
 
 # ------------------------------------------------------------------------------ replay on the real code
